@@ -317,6 +317,15 @@ CaseResult run_case(Tape &t, long sweep)
   uint32_t kill0 = vs_counts.calls[VS_KILL], wait0 = vs_counts.calls[VS_WAITPID];
   bool was_running = k.alive;
 
+  {
+    // every finite bound of the stored policy (see vt::World::horizon)
+    int64_t bound = 10000;
+    for (int i = 0; i < 3; i++)
+      if (c.act[i].timeout > 0) bound += c.act[i].timeout;
+    if (c.deadline) bound += c.deadline;
+    if (c.term_mode == 2) bound += c.term_delay;
+    w.call_begins(bound);
+  }
   reproc_t *ret = nullptr;
   if (c.via_cxx) cxx.reset();
   else ret = reproc_destroy(ch.p);
@@ -342,7 +351,7 @@ CaseResult run_case(Tape &t, long sweep)
       if (vs_counts.calls[VS_KILL] != kill0 || vs_counts.calls[VS_WAITPID] != wait0 || t1 != t0) bad("destroy-of-reaped-touched-process", "destroy of an already reaped handle signalled, waited or took time");
     } else if (e.kind == model::StopExpect::HANG) {
       if (!w.hang) bad("abandoned-running-child", "the stored stop policy makes destroy wait without bound (child never ends), but destroy returned at +" + std::to_string(t1 - t0) + " ms" + (k.alive ? " with the child still running" : ""));
-      else if (w.hang_at != e.end) bad("wrong-duration", "the unbounded wait of destroy began at +" + std::to_string(w.hang_at - t0) + " ms, expected +" + std::to_string(e.end - t0));
+      else if (w.hang_by_horizon ? w.hang_at < e.end : w.hang_at != e.end) bad("wrong-duration", "the unbounded wait of destroy began at +" + std::to_string(w.hang_at - t0) + " ms, expected +" + std::to_string(e.end - t0));
     } else {
       if (w.hang) bad("blocked-forever", "destroy blocked without bound (" + w.hang_what + " at +" + std::to_string(w.hang_at - t0) + " ms) although the stored policy bounds it: " + e.trace);
       else if (t1 != e.end && e.kind != model::StopExpect::EINVAL_) bad("wrong-duration", "destroy took " + std::to_string(t1 - t0) + " ms of virtual time, the stored stop policy gives " + std::to_string(e.end - t0) + " (" + e.trace + ")");
